@@ -92,6 +92,7 @@ func eventOf(o Obs, e string, a []string) Event {
 // ---------------------------------------------------------------- generators
 
 type gen struct {
+	terms []string // the single-term texts generated for the expression being built (large inputs)
 	rng *rand.Rand
 	t   Tables
 	fam [][]string // flattened families (ids in step order)
@@ -148,6 +149,12 @@ func (g *gen) pick2(l [][]string) []string { return l[g.rng.Intn(len(l))] }
 
 // term renders one single-term expression.  pool biases towards related ids.
 func (g *gen) term(pool []string, refs bool) string {
+	t := g.term0(pool, refs)
+	g.terms = append(g.terms, t)
+	return t
+}
+
+func (g *gen) term0(pool []string, refs bool) string {
 	if refs && g.rng.Intn(6) == 0 {
 		names := []string{"a", "b", "x-1", "A", "MIT", "1.0"}
 		s := "LicenseRef-" + g.pick(names)
@@ -469,8 +476,13 @@ func (g *gen) chain(op string, n int, pool []string) string {
 }
 
 func (g *gen) largeExpr(pool []string) string {
-	n := 7 + g.rng.Intn(30)
-	switch g.rng.Intn(9) {
+	n := 7 + g.rng.Intn(60)
+	switch g.rng.Intn(10) {
+	case 9: // two long names that share a 70-byte prefix, as expression terms (and, below, as allowed entries)
+		pre := "LicenseRef-" + strings.Repeat(g.pick([]string{"Vendor-Internal-", "x.", "A1-"}), 24)
+		a, b := pre+"-2023", pre+"-2024"
+		g.terms = append(g.terms, a, b)
+		return g.pick([]string{a + " AND " + b, b, a + " OR " + g.term(pool, true), "(" + b + " AND " + g.term(pool, true) + ") OR " + a})
 	case 0:
 		return g.chain("AND", n, pool)
 	case 1:
@@ -482,7 +494,7 @@ func (g *gen) largeExpr(pool []string) string {
 		}
 		return strings.Join(gs, " OR ")
 	case 3: // deep redundant nesting around a small expression
-		d := 4 + g.rng.Intn(12)
+		d := 4 + g.rng.Intn(40)
 		return strings.Repeat("(", d) + g.chain(g.pick([]string{"AND", "OR"}), 2+g.rng.Intn(3), pool) + strings.Repeat(")", d)
 	case 4: // left-nested chain with explicit parentheses
 		e := g.term(pool, true)
@@ -505,7 +517,7 @@ func (g *gen) largeExpr(pool []string) string {
 		for i := 0; i < 2+g.rng.Intn(3); i++ {
 			gs = append(gs, "("+g.chain("OR", 2+g.rng.Intn(3), pool)+")")
 		}
-		return strings.Join(gs, " AND ") + " AND " + g.chain("AND", 5+g.rng.Intn(10), pool)
+		return strings.Join(gs, " AND ") + " AND " + g.chain("AND", 5+g.rng.Intn(14), pool)
 	case 7: // long names and blank runs
 		name := strings.Repeat(g.pick([]string{"a", "Ab", "x-1.", "Z9"}), 20+g.rng.Intn(40))
 		return "LicenseRef-" + name + strings.Repeat(" ", 1+g.rng.Intn(60)) + g.pick([]string{"AND", "OR"}) + strings.Repeat(" ", 1+g.rng.Intn(60)) +
@@ -516,7 +528,9 @@ func (g *gen) largeExpr(pool []string) string {
 
 func (g *gen) largeCall() Event {
 	pool := g.relatedPool()
+	g.terms = g.terms[:0]
 	e := g.largeExpr(pool)
+	own := append([]string{}, g.terms...)
 	switch g.rng.Intn(10) {
 	case 0:
 		e = g.mutate(e)
@@ -529,12 +543,26 @@ func (g *gen) largeCall() Event {
 	if g.rng.Intn(3) == 0 {
 		return eventOf(obsExtract(e), e, nil)
 	}
-	// long allowed list: many entries, repeats, re-spellings; the wanted terms anywhere in it
-	a := g.allowedList(pool, 6+g.rng.Intn(20))
+	// long allowed list built FROM the expression's own terms (most of them, so that large AND groups can be
+	// covered and verdicts are not trivially false), plus unrelated entries, repeats and re-spellings, shuffled
+	var a []string
+	keep := 0.55 + 0.45*g.rng.Float64()
+	for _, t := range own {
+		if g.rng.Float64() < keep {
+			a = append(a, t)
+		}
+	}
+	a = append(a, g.allowedList(pool, 2+g.rng.Intn(10))...)
 	for i := 0; i < len(a)/3; i++ {
 		a = append(a, a[g.rng.Intn(len(a))])
 	}
 	g.rng.Shuffle(len(a), func(i, j int) { a[i], a[j] = a[j], a[i] })
+	// sometimes one invalid or compound entry, anywhere - also late in a long list
+	if g.rng.Intn(4) == 0 && len(a) > 0 {
+		bad := g.pick([]string{g.mutate(g.term0(pool, true)), g.term0(pool, true) + " AND " + g.term0(pool, true), "", "FOO-unknown"})
+		at := g.rng.Intn(len(a) + 1)
+		a = append(a[:at:at], append([]string{bad}, a[at:]...)...)
+	}
 	return eventOf(obsSatisfies(e, a), e, a)
 }
 
